@@ -90,6 +90,115 @@ theorem fill_entry {σ : Type} (pop : σ → Option ((Nat × Int) × σ)) :
           intro p h1 h2
           rw [hcell, if_neg (by omega)]
           exact hnone p (by omega) (by omega)
-  · sorry
+  · have hn2 : 2 ≤ n := by omega
+    cases h with
+    | zero => exfalso; rw [Nat.pow_zero] at ho; omega
+    | succ h1 =>
+    obtain ⟨q, hq⟩ : ∃ q, q = 2 ^ h1 := ⟨_, rfl⟩
+    have hqpos : 1 ≤ q := by rw [hq]; exact Nat.one_le_two_pow
+    have hoq : o = 2 * q := by rw [ho, hq, Nat.pow_succ]; omega
+    subst hoq
+    have hiL : i - q = q * (2 * (2 * m) + 1) := by
+      have : i = q * (2 * (2 * m) + 1) + q := by rw [hi]; ring
+      omega
+    have hiR : i + q = q * (2 * (2 * m + 1) + 1) := by rw [hi]; ring
+    -- split the list
+    obtain ⟨nl, hnl⟩ : ∃ nl, nl = (n + 1) / 2 - 1 := ⟨_, rfl⟩
+    obtain ⟨nr, hnr⟩ : ∃ nr, nr = n - (n + 1) / 2 := ⟨_, rfl⟩
+    have hlt : l = l.take nl ++ l.drop nl := (List.take_append_drop nl l).symm
+    have hlen1 : (l.take nl).length = nl := by rw [List.length_take]; omega
+    have hlen2 : (l.drop nl).length = 1 + nr := by rw [List.length_drop]; omega
+    obtain ⟨ll, hll⟩ : ∃ ll, ll = l.take nl := ⟨_, rfl⟩
+    rw [← hll] at hlt hlen1
+    cases hrest : l.drop nl with
+    | nil => rw [hrest] at hlen2; simp at hlen2; omega
+    | cons kv lr =>
+    rw [hrest] at hlt hlen2
+    have hlen3 : lr.length = nr := by simp at hlen2; omega
+    rw [hlt] at hdel
+    obtain ⟨s1, hd1, hd2⟩ := delivers_append pop ll (kv :: lr) s s' hdel
+    obtain ⟨s2, hpop, hd3⟩ := hd2
+    have hmvL : mv 1 ⟨i, 2 * q⟩ = ⟨i - q, q⟩ := by
+      have : 2 * q / 2 = q := by omega
+      simp [mv, TIt.getLeftChild, this]
+    have hmvR : mv 2 ⟨i, 2 * q⟩ = ⟨i + q, q⟩ := by
+      have : 2 * q / 2 = q := by omega
+      simp [mv, TIt.getRightChild, this]
+    have hmv3 : mv 3 ⟨i, 2 * q⟩ = ⟨i, 2 * q⟩ := by simp [mv]
+    -- left subtree
+    obtain ⟨cl, t1, hcl0, hcl, hrunl, hfrl, hlistl, hball⟩ :=
+      ih nl (by omega) h1 (2 * m) (i - q) q t ⟨i, 2 * q⟩ 1 ll s s1 (by omega) hq hiL
+        hmvL (by omega) (by omega)
+        (fun p h1 h2 => hnone p (by omega) (by omega)) hlen1 hd1
+    obtain ⟨f1a, f1b, f1c, f1d, f1e⟩ := hfrl
+    -- the root of the subtree
+    obtain ⟨t2, ht2⟩ : ∃ t2, t2 = t1.setCell i (some kv) := ⟨_, rfl⟩
+    have hcell2 : ∀ p, t2.cell p = if p = i then some kv else t1.cell p := by
+      intro p
+      rw [ht2, cell_setCell]
+      by_cases hp : p = i
+      · subst hp
+        have : p < t1.cells.size := by omega
+        simp [this]
+      · have : ¬ (i = p ∧ i < t1.cells.size) := by omega
+        rw [if_neg this, if_neg hp]
+    have hsz2 : t2.cells.size = t1.cells.size := by rw [ht2]; simp
+    -- right subtree
+    obtain ⟨cr, t3, hcr0, hcr, hrunr, hfrr, hlistr, hbalr⟩ :=
+      ih nr (by omega) h1 (2 * m + 1) (i + q) q t2 ⟨i, 2 * q⟩ 2 lr s2 s' (by omega) hq hiR
+        hmvR (by omega) (by omega)
+        (fun p h1 h2 => by
+          rw [hcell2, if_neg (by omega), f1e p (by omega)]; exact hnone p (by omega) (by omega))
+        hlen3 hd3
+    obtain ⟨f3a, f3b, f3c, f3d, f3e⟩ := hfrr
+    have hc31 : ∀ p, p ≤ i → t3.cell p = t2.cell p := fun p hp => f3e p (by omega)
+    refine ⟨1 + cl + 1 + 1 + cr + 1, t3, fun h => absurd h (by omega), ?_, ?_, ?_, ?_, ?_⟩
+    · intro _
+      have := hcr (by omega)
+      by_cases hz : nl = 0
+      · have := hcl0 hz; omega
+      · have := hcl hz; omega
+    · intro fuel stk
+      have e : fuel + (1 + cl + 1 + 1 + cr + 1) = (fuel + 1 + cr + 1 + 1 + cl) + 1 := by omega
+      rw [e, fill_step_expand pop _ n op hop hn2, hmv, ← hnl, ← hnr, hrunl, fill_step_parent,
+        parent_left q m i hqpos hi,
+        fill_step_one pop _ 3 (by omega) _ _ _ s1 s2 kv hpop, hmv3]
+      simp only []
+      rw [← ht2, hrunr, fill_step_parent, parent_right q m i hqpos hi]
+    · have g1 : t2.rs = t1.rs := by rw [ht2]; rfl
+      have g2 : t2.maxDepth = t1.maxDepth := by rw [ht2]; rfl
+      have g3 : t2.size = t1.size := by rw [ht2]; rfl
+      refine ⟨by omega, by omega, by omega, by omega, ?_⟩
+      intro p hp
+      rw [f3e p (by omega), hcell2, if_neg (by omega), f1e p (by omega)]
+    · rw [hlt]
+      rw [listRange_split _ _ i _ (by omega) (by omega),
+        listRange_split _ i (i + 1) _ (by omega) (by omega), listRange_one, hc31 i (by omega),
+        hcell2 i, if_pos rfl]
+      have e1 : t3.listRange (i - (2 * q - 1)) i = ll := by
+        rw [← hlistl]
+        have a : i - q - (q - 1) = i - (2 * q - 1) := by omega
+        have b : i - q + q = i := by omega
+        rw [a, b]
+        apply listRange_congr
+        intro p h1 h2
+        rw [hc31 p (by omega), hcell2, if_neg (by omega)]
+      have e2 : t3.listRange (i + 1) (i + 2 * q) = lr := by
+        rw [← hlistr]
+        have a : i + q - (q - 1) = i + 1 := by omega
+        have b : i + q + q = i + 2 * q := by omega
+        rw [a, b]
+      rw [e1, e2]
+      rfl
+    · rw [balanced_unfold]
+      have e : 2 ^ (h1 + 1) / 2 = q := by rw [hq, Nat.pow_succ]; omega
+      rw [e, ← hnl, ← hnr]
+      refine Or.inr ⟨by omega, ?_, ?_, hbalr⟩
+      · unfold Tree.isUnused
+        rw [hc31 i (by omega), hcell2 i, if_pos rfl]; rfl
+      · apply balanced_congr t1 t3 h1 (i - q) nl _ hball
+        intro p h1 h2
+        rw [← hq] at h1 h2
+        rw [hc31 p (by omega), hcell2, if_neg (by omega)]
 
 end PPLV.COTree.FillB
